@@ -337,6 +337,17 @@ func generate(seed uint64, focus, arm string) *plan.Plan {
 		if arm == "latedial" {
 			return genLateDial(r, seed)
 		}
+		if arm == "exhaust" {
+			// a pipelined connection that has used up its ids: closing the
+			// upstream afterwards still has to close it
+			p := genXport(r, seed, "C05", arm)
+			p.Focus = "C18"
+			p.Xport.ExhaustClose = true
+			for k := 0; k < 8; k++ {
+				p.Xport.Tokens[fmt.Sprintf("txslow%d", k)] = &plan.TokenSpec{Ans: plan.AnswerSpec{NAn: 1, TTLs: []uint32{60}, Shape: "plain"}, Acts: []plan.UpAction{{Kind: "reply", DelayUs: r.i64(3_500_000, 4_500_000)}}}
+			}
+			return p
+		}
 		if arm == "xclose" {
 			p := genXport(r, seed, "C18x", arm)
 			p.Focus = "C18"
